@@ -234,6 +234,12 @@ class Impl:
         snd, rcv, sub, peer = self.pair(urn, key)
         sent = [[self.record(r) for r in case[k]] for k in ("completed", "halted", "updated")]
         out = dict(sent=sent)
+        # what a predicate (or any other reader) does with a history between the moment the record is built and the
+        # moment the outgoing thread serialises it: reads only - they must not alter what is sent
+        out["spec_before_reads"] = [[self.spec_record(r) for r in l] for l in sent]
+        for l in sent:
+            for r in l:
+                read_history(r.history, 0)
         msg = {self.keys[0]: sent[0], self.keys[1]: sent[1], self.keys[2]: sent[2]}
         out["stage"] = "send"
         js = snd._outgoing_to_json(msg)
@@ -259,6 +265,18 @@ class Impl:
             else:
                 out["delivered"] = [list(x) for x in sub.got[-1]] if sub.got else "nothing delivered"
         return out
+
+
+def read_history(h, depth):
+    """every read-only accessor of a history (and of the histories nested in its complex events)"""
+    for g in list(h.all_groups()) + ["__no_such_group__", ""]:
+        h.group(g)
+    h.first(), h.last(), h.size(), h.all_events(), str(h)
+    if depth < 3:
+        for e in h.all_events():
+            inner = getattr(e, "history", None)
+            if inner is not None and hasattr(inner, "all_groups"):
+                read_history(inner, depth + 1)
 
 
 def impl():
@@ -348,6 +366,12 @@ def check_case(case):
         return dict(signature="%s-raises:%s" % (st, type(e).__name__),
                     what="%s raised %s: %s" % (st, type(e).__name__, str(e)[:200])), None
     names = ("completed", "halted", "updated")
+    for n, l0, l1 in zip(names, out["spec_before_reads"], out["sent"]):
+        for i, (s0, r1) in enumerate(zip(l0, l1)):
+            d = diff_record(s0, im.spec_record(r1), "%s[%d]" % (n, i))
+            if d:
+                return dict(signature="read-changed-the-record:" + d[1],
+                            what="reading the history of %s[%d] (group / first / last / size / all_events) changed it at %s before it was sent" % (n, i, d[0])), out
     want = (case["urn"], case["key"], case["type"], case["flags"])
     if tuple(out["fields"]) != want or any(type(a) is not type(b) for a, b in zip(out["fields"], want)):
         return dict(signature="header-differs", what="header fields %r became %r" % (want, out["fields"])), out
